@@ -219,7 +219,7 @@ func init() {
 	reg(&PropSpec{
 		ID: "C12", Prefix: "vh_C12_",
 		Quick:    Tier{Params: map[string]int{"ref_len": 2, "alpha_len": 4, "abs_tail": 2}},
-		Thorough: Tier{Params: map[string]int{"ref_len": 3, "alpha_len": 5, "abs_tail": 3}},
+		Thorough: Tier{Params: map[string]int{"ref_len": 3, "alpha_len": 5, "abs_tail": 3, "hop_len": 4}},
 		Bounds: []string{
 			"vh_C12_locate: $ref strings of every length 0..ref_len with every byte unconstrained (256 values)",
 			"vh_C12_alphabet: $ref strings of length ref_len+1..alpha_len over the alphabet {. / % 2 5 F e # a space 0xC3 0xA9} (the segment material the property names: plain, dotted, ./.., escapes, non-ASCII, fragment)",
